@@ -112,7 +112,10 @@ def run_dtier(pid, cfg, tier, seed, out, ev):
             if c is not None:
                 hook = getattr(cfg, "replay", None)
                 if hook is not None:
-                    hit = hook(name, c, co.model or {}, seed)
+                    try:
+                        hit = hook(name, c, co.model or {}, seed)
+                    except Exception as e:   # a broken replay helper is not a verdict
+                        hit = {"not_replayable": "replay helper raised %s: %s" % (type(e).__name__, e)}
                 if hit is None:
                     hit = rp.native_search(c, co.model or {}, seed=seed, budget_s=10 if tier == "quick" else 40,
                                            thorough=(tier == "thorough"))
